@@ -589,6 +589,11 @@ fn is_err_ans(a: &str) -> bool {
     a.starts_with("V e")
 }
 
+/// `x` shows #NUM! on its own but is a *number* inside a formula: a non-finite intermediate (F06e)
+fn nonfinite_intermediate(m: &mut Model, x: &E, alone: &str) -> bool {
+    alone == "V eNUM" && eval_formula(m, &format!("ISNUMBER({})", render(x))) == "V b1"
+}
+
 /// implementation-level oracles on the top node of the program
 fn oracles(m: &mut Model, pool: &[((i32, i32), V)], e: &E, ans: &str, fails: &mut Vec<(String, String)>) {
     // broadcasting of a scalar over a range: the first element of `l op range` is `l op firstcell`
@@ -638,7 +643,9 @@ fn oracles(m: &mut Model, pool: &[((i32, i32), V)], e: &E, ans: &str, fails: &mu
                     // an operand is (syntactically) an array: which error wins between an array element
                     // and a scalar operand is not pinned down here; the result must be an error
                     if (is_err_ans(&la) || is_err_ans(&ra)) && !is_err_ans(ans) {
-                        let sig = if CMP.contains(op) {
+                        let sig = if nonfinite_intermediate(m, l, &la) || nonfinite_intermediate(m, r, &ra) {
+                            "c06:nonfinite-intermediate-is-a-number-not-an-error".to_string()
+                        } else if CMP.contains(op) {
                             "c06:compare:error-element-of-array-operand-not-propagated".to_string()
                         } else {
                             format!("c06:strict:{op}:array-operand-error-lost")
@@ -691,8 +698,13 @@ fn oracles(m: &mut Model, pool: &[((i32, i32), V)], e: &E, ans: &str, fails: &mu
                     }
                     let aa = eval_formula(m, &render(a));
                     if is_err_ans(&aa) {
+                        let sig = if nonfinite_intermediate(m, a, &aa) {
+                            "c06:nonfinite-intermediate-is-a-number-not-an-error"
+                        } else {
+                            "c06:and-or:short-circuit-swallows-error"
+                        };
                         fails.push((
-                            "c06:and-or:short-circuit-swallows-error".into(),
+                            sig.into(),
                             format!("{} = {ans} although argument {} = {aa}", render(e), render(a)),
                         ));
                         break;
